@@ -10,6 +10,7 @@ import CBV.Lemmas.C09Center
 import CBV.Lemmas.C09Copy
 import CBV.Lemmas.C09Arc
 import CBV.Lemmas.C09Entity
+import CBV.Lemmas.C09Seq
 
 namespace CBV.C09
 open CBV
@@ -249,16 +250,23 @@ theorem T_C09_output_leaves (t : RT) (v : V3) (vs : List V3) :
 
 /-- hence the default origin of the next step is the image of the previous centre, for **every** entity kind whose
     `center` the model transcribes and that follows the entity schema (`wfV`, validated on every real tree):
-    face, operation, shape, sphere shape, stack, assembly, joint, discrete / line / circle curve.  (EdgeData's constant
-    centre (0,0,0) does not follow — the code warns; sketches and OnCurve edges: see notes, partial.) -/
+    face, operation, shape, sphere shape, stack, assembly, joint, discrete / line / circle curve, OnCurve / Spline edges,
+    Grid, disks, mapped sketches.  (EdgeData's constant centre (0,0,0) does not follow — the code warns.) -/
 theorem T_C09_center_entity (t : RT) (k : Kind) (a : Rat) (ch : List Ent) (h : Heap)
-    (hna : NoAlias (.node k a ch)) (hin : InHeap (.node k a ch) h) (hcov : coveredKind k = true)
+    (hna : NoAlias (.node k a ch)) (hin : InHeap (.node k a ch) h) (hcov : (coveredKind k || coveredKind2 k) = true)
     (hwf : wfV (resolveE h (.node k a ch)) = true) (c : V3) (hc : center h none (.node k a ch) = some c) :
     center (applyE t (.node k a ch) h).2 none (applyE t (.node k a ch) h).1 = some (t.pt c) := by
   unfold center at hc ⊢
   rw [T_C09_output t _ h hna hin]
   simp only [resolveE] at hc hwf ⊢
-  exact centerV_mapV_node t k a _ hcov hwf c hc
+  rcases Bool.or_eq_true _ _ |>.mp hcov with h1 | h2
+  · exact centerV_mapV_node t k a _ h1 hwf c hc
+  · exact centerV_mapV_node2 t k a _ h2 hwf c hc
+
+/-- the kinds covered: everything with a transcribed rule except EdgeData's constant (`edge`, `angle`) -/
+theorem T_C09_center_entity_kinds :
+    ∀ k : Kind, (coveredKind k || coveredKind2 k) = (ruleOf k != .observed && ruleOf k != .zero) := by
+  intro k; cases k <;> rfl
 
 /-- a two-block assembly-like sample: a shape of one operation (two faces of four points, four side edges) -/
 def sampleShape : Ent :=
@@ -284,6 +292,29 @@ theorem T_C09_center_leaf (t : RT) (v : V3) (vs : List V3) (hne : vs ≠ []) :
   exact (RT.pt_avg t vs hne).symm
 
 example : ([⟨1, 2, 3⟩] : List V3) ≠ [] := by simp
+
+/-! ### T_C09_sequence — chains of method calls and transformation lists on the whole tree -/
+
+/-- NoAlias and InHeap survive every method call: the cells of the tree are only permuted (`Operation.mirror`
+    swaps faces and reverses spline rows), so the next call is again covered by `T_C09_output` -/
+theorem T_C09_invariant (t : RT) (e : Ent) (h : Heap) (hna : NoAlias e) (hin : InHeap e h) :
+    NoAlias (applyE t e h).1 ∧ InHeap (applyE t e h).1 (applyE t e h).2 :=
+  inv_applyE t e h hna hin
+
+/-- **Functoriality.**  For every sequence of transformations (method chain or transformation list, any length, every
+    default origin resolved against the centre of the state the previous steps left behind): running it on the
+    entity in the heap and reading the output afterwards is running the value-level steps (`runStepsV`: `mapV` of each
+    resolved step, default origins from the centre *of the current output*) on the output read before.  Both sides
+    refuse together (a default origin is needed and the kind has no centre rule). -/
+theorem T_C09_sequence (viaMethod : Bool) (ts : List (Tr × Option V3)) (e : Ent) (h : Heap)
+    (hna : NoAlias e) (hin : InHeap e h) :
+    (runSteps viaMethod ts (e, h)).map (fun s => resolveE s.2 s.1) = runStepsV viaMethod ts (resolveE h e) :=
+  runSteps_resolve viaMethod ts e h hna hin
+
+/-- value-level composition: two translations add up, explicit-origin steps compose as maps on every leaf -/
+theorem T_C09_sequence_leaf (t1 t2 : RT) (v : V3) :
+    mapV t2 (mapV t1 (.pt v)) = .pt (t2.pt (t1.pt v)) ∧ mapV t2 (mapV t1 (.dir v)) = .dir (t2.dir (t1.dir v)) := by
+  simp [mapV]
 
 /-! ### T_C09_source — the model's entity schema, centre rules and default origins are those of the source -/
 
